@@ -20,6 +20,8 @@
  *              kern  kernel args + sample frames -> words added by the real kernel
  *              dmx   accumulator word -> output sample
  *              vt    one voice's whole tick -> its solo buffer and new state
+ *   lowrate  the same at XMP_MIN_SRATE with XMP_FLAGS_A500 from the start of the module (largest
+ *            steps; regression configuration for the Paula kernels reading past the sample end).
  *   twin     two contexts, A with master volume 100 / separation 100 / nothing muted, B with
  *            random master, effects-mixer volume, separation and mutes: B's vi->vol / vi->pan
  *            must be the model's function of A's (cases `mst`, `pan`).
@@ -676,20 +678,26 @@ static int module_len(const char *path)
 /* mode: tie                                                           */
 /* ------------------------------------------------------------------ */
 
-static int mode_tie(uint64_t seed, int nframes, const char *path)
+static int mode_tie(uint64_t seed, int nframes, const char *path, int lowrate)
 {
 	struct cfg c;
 	xmp_context x;
 	int f, len;
 
-	seed_for(seed, path, 1);
+	seed_for(seed, path, lowrate ? 9 : 1);
 	random_cfg(&c);
+	if (lowrate) {
+		/* regression configuration: lowest output rate (largest steps), Paula kernels for
+		 * Amiga modules, from the start of the module */
+		c.rate = XMP_MIN_SRATE;
+		c.a500 = 1;
+	}
 	len = module_len(path);
 	if (len <= 0) {
 		printf("skip %s\n", path);
 		return 0;
 	}
-	c.startpos = vrng_chance(50) ? 0 : (int)vrng_below(len);
+	c.startpos = (lowrate || vrng_chance(50)) ? 0 : (int)vrng_below(len);
 	x = open_ctx(path, &c, 1);
 	if (x == NULL) {
 		printf("skip %s\n", path);
@@ -1149,7 +1157,7 @@ int main(int argc, char **argv)
 	const char *mode;
 
 	if (argc < 5) {
-		fprintf(stderr, "usage: %s tie|twin|silence|solosum|sep <seed> <nframes> <module>...\n", argv[0]);
+		fprintf(stderr, "usage: %s tie|lowrate|twin|silence|solosum|sep <seed> <nframes> <module>...\n", argv[0]);
 		return 2;
 	}
 	mode = argv[1];
@@ -1157,7 +1165,9 @@ int main(int argc, char **argv)
 	nframes = atoi(argv[3]);
 	for (i = 4; i < argc; i++) {
 		if (!strcmp(mode, "tie"))
-			mode_tie(seed, nframes, argv[i]);
+			mode_tie(seed, nframes, argv[i], 0);
+		else if (!strcmp(mode, "lowrate"))
+			mode_tie(seed, nframes, argv[i], 1);
 		else if (!strcmp(mode, "twin"))
 			mode_twin(seed, nframes, argv[i]);
 		else if (!strcmp(mode, "silence"))
